@@ -15,7 +15,7 @@ from symx.scalar import SymBool, SymReal
 from .common import facts, far, simp, tensor_of, term_of
 
 PID = "C20"
-LEVEL = "other"
+LEVEL = "model_checking"
 CLAIM = (
     "Bounded symbolic verification of the deterministic algebra behind the samplers: LinearInterp (piecewise-linear inverse transform) "
     "with symbolic grid, node values and uniform variate - on every branch of its bin search z3 decides integral(solve(u)) = u * total, "
